@@ -117,8 +117,8 @@ func (sm *ShardManager) cleanupRoutine(ls *loadedShard, backupFrequency, backupC
 		case <-timer.C:
 			sm.logger.Debug().Str("shardDir", shardDir).Msg("Unloading shard")
 			ls.mu.Lock()
-			defer ls.mu.Unlock() // we commit to exiting the cleanup goroutine here
 			if ls.shard == nil {
+				ls.mu.Unlock()
 				sm.logger.Debug().Str("shardDir", shardDir).Msg("Shard already unloaded")
 				return
 			}
@@ -145,8 +145,18 @@ func (sm *ShardManager) cleanupRoutine(ls *loadedShard, backupFrequency, backupC
 			// is closed in case they are waiting on the lock
 			sm.logger.Debug().Str("shardDir", shardDir).Msg("Removing loaded shard")
 			ls.shard = nil
+			/* The shard lock must be released before we take the store lock.
+			 * DeleteCollectionShards takes them the other way round (store
+			 * lock, then shard lock), holding both here deadlocks the shard
+			 * manager. Anyone who finds the entry in the meantime sees the
+			 * nil shard. The entry may also have been removed or replaced by
+			 * a freshly loaded shard by then, in which case it is not ours
+			 * to delete. */
+			ls.mu.Unlock()
 			sm.shardLock.Lock()
-			delete(sm.shardStore, shardDir)
+			if sm.shardStore[shardDir] == ls {
+				delete(sm.shardStore, shardDir)
+			}
 			sm.shardLock.Unlock()
 			// ---------------------------
 			return
